@@ -331,6 +331,21 @@ def check_c16(out, tier):
     for c in base_cases(rnd, 90 * k, "c16n", schema_share=.1):
         nss = rnd.choice([[M.EX], [gen.EX2], [M.EX, gen.OTHER], [gen.OTHER], ["http://example.org"], [M.RDF],
                           [M.EX, gen.EX2], [gen.EX2, M.EX], [gen.OTHER, M.EX, gen.EX2], ["http://example.org", gen.EX2]])
+        if rnd.random() < .25:
+            # namespaces are plain strings: characters that mean something to a regular expression ('(', ')', '+', '?', '.', '$', '[')
+            # are ordinary IRI characters; a look-alike namespace must not be caught by them
+            odd = rnd.choice(["http://example.org/onto_(v2)/", "http://example.org/c++/", "http://example.org/a.b/", "http://example.org/q?x=[1]$/"])
+            alike = {"http://example.org/onto_(v2)/": "http://example.org/onto_v2/", "http://example.org/c++/": "http://example.org/ccc/",
+                     "http://example.org/a.b/": "http://example.org/axb/", "http://example.org/q?x=[1]$/": "http://example.org/qx=1/"}[odd]
+            T0 = M.from_json_graph(c["graph"])
+            subs = sorted({t[0] for t in T0})
+            extra = []
+            for x in rnd.sample(subs, min(len(subs), rnd.randint(1, 3))):
+                extra.append((x, odd + "code", M.lit("c")))
+                if rnd.random() < .7:
+                    extra.append((x, alike + "code", M.lit("d")))
+            c = with_graph(c, T0 + extra)
+            nss = [odd] + (nss if rnd.random() < .5 else [])
         ci = with_cfg(c, ignoreNs=nss)
         ign.append(ci)
         if M.RDF not in nss:
@@ -389,6 +404,8 @@ def c17_graph(rnd):
         ["https://a.org/x", "https://b.org/y"],
         ["http://a.org/x", "http://b.org/y"],
         ["urn:x:1", "urn:x:2", "urn:y:3"],
+        ["http://ex.org/id/taxon:9606", "http://ex.org/id/gene:1017", "http://ex.org/id/gene:22"],      # ':' after the last '/'
+        ["http://ex.org/id/gene:1", "http://ex.org/id/gene:2", "http://ex.org/id/plain"],
         ["http://ex.org/data/item1", "http://ex.org/data/item12", "http://ex.org/data/it"],
         ["http://ex.org/p#a", "http://ex.org/p#b"],
         ["http://ex.org/only"],
